@@ -200,6 +200,24 @@ Definition map_update (m1 m2 : list (string * string)) : list (string * string) 
 (* mapFilter((k,v) -> v != '', m): the pairs of a map whose value is not '' *)
 Definition nonempty_kv (kv : string * string) : bool := negb (String.eqb (snd kv) "").
 
+(* ---------- the extraction oracle of the regexp stage ----------
+   re_groups pattern haystack = arrayMap(x -> x[length(x)], extractAllGroupsHorizontal(haystack, pattern)):
+   one string per capture group of the pattern (numbered by opening parenthesis), the text the group captured in the LAST
+   match of the pattern in the haystack ('' when there is no match or the group took no part in it: a subscript 0 of an
+   empty array is the default value); None = ClickHouse exception (the pattern is not RE2, or has no capture group).
+   The oracle is a type class with the default instance no_groups (declared below the evaluator), so that the statements
+   of the other properties that use this evaluator - none of them reads a regexp stage - keep their four oracles; the
+   C07 theorems quantify over every instance. *)
+Class ReGroups := re_groups : string -> string -> option (list string).
+(* mapFromArrays(arrayFilter((x,y) -> x != '' AND y != '', names, vals), arrayFilter((x,y) -> x != '' AND y != '', vals, names)):
+   the pairs whose name and value are both non-empty, in order *)
+Definition re_pair_ok (kv : string * string) : bool := negb (String.eqb (fst kv) "") && negb (String.eqb (snd kv) "").
+Definition re_pairs (names vals : list string) : list (string * string) := filter re_pair_ok (combine names vals).
+(* the text of regexMap around the label names and the expression, with the id 0 the model draws under WithId *)
+Definition regex_map_t1 : string := "mapFromArrays(arrayFilter( (x,y) -> x != '' AND y != '',  [".
+Definition regex_map_t2 : string := "] as re_lbls_0,  arrayMap(x -> x[length(x)], extractAllGroupsHorizontal(string, ".
+Definition regex_map_t3 : string := ")) as re_vals_0),arrayFilter((x,y) -> x != '' AND y != '', re_vals_0, re_lbls_0))".
+
 (* string literals of a list of objects *)
 Fixpoint str_lits (l : list expr) : option (list string) :=
   match l with
@@ -251,6 +269,7 @@ Fixpoint keys_leb (dirs : list bool) (a b : list value) : bool :=
 Definition all_int (vs : list value) : bool := forallb (fun v => match v with VInt _ => true | _ => false end) vs.
 
 Section EVAL.
+  Context {RG : ReGroups}.                           (* oracle: the capture groups of the last match (regexp stage) *)
   Variable re_match : string -> string -> bool.      (* oracle: RE2 match(haystack, pattern) *)
   Variable parse_float : string -> option Q.         (* oracle: toFloat64OrNull / a float literal; finite values only *)
   (* oracle: if(JSONType(doc, path...) == 'String', JSONExtractString(doc, path...), JSONExtractRaw(doc, path...)) *)
@@ -519,6 +538,21 @@ Section EVAL.
           | Some ks, Some vs => if Nat.eqb (List.length ks) (List.length vs) then Some (VMap (filter nonempty_kv (combine ks vs))) else None
           | _, _ => None end
         else None
+      (* regexMap: the map of the non-empty (name, last captured text) pairs; arrayFilter over two arrays of different
+         sizes is an exception *)
+      | [Raw t1; Sep s1 ls; Raw t2; StrV re; Raw t3] =>
+        if String.eqb sep "" && String.eqb t1 regex_map_t1 && String.eqb s1 "," && String.eqb t2 regex_map_t2
+           && String.eqb t3 regex_map_t3 then
+          match str_lits ls, g with
+          | Some names, r :: _ =>
+            match lookup "string" r with
+            | Some (VStr line) =>
+              match re_groups re line with
+              | Some vs => if Nat.eqb (List.length vs) (List.length names) then Some (VMap (re_pairs names vs)) else None
+              | None => None end
+            | _ => None end
+          | _, _ => None end
+        else None
       | _ => None
       end
     | WRef _ _ | SubQ _ | Col _ _ | Ord _ _ | CtxParam _ _ => None
@@ -540,4 +574,7 @@ Section EVAL.
 End EVAL.
 
 (* what the reader executes: the rows of the outermost SELECT *)
-Definition eval := esel.
+Definition eval {RG : ReGroups} := @esel RG.
+
+(* the default instance: no regexp extraction is available (every regexMap is outside the subset) *)
+#[global] Instance no_groups : ReGroups | 100 := fun _ _ => None.
